@@ -64,7 +64,7 @@ NUMBERS = sorted(set(list(range(0, 131)) + [199, 200, 255, 256, 299, 300, 999, 1
 
 def candidates(shape):
     if shape in ("str", "digits"):
-        return [str(n) for n in NUMBERS] + ["00", "007", ""]
+        return [str(n) for n in NUMBERS] + ["00", "007", ""] + candidates("dna")[:400] + ["ACGTN", "acgt", "AAAAAAAAAA", "GGGGCCCCAT", "CCGCGGTTAAGC"]
     if shape in ("digit", "char"):
         return [str(d) for d in range(10)]
     if shape == "dna":
@@ -153,8 +153,31 @@ def search(req):
     for key in ("requires", "ensures"):
         if isinstance(c.get(key), list):
             c[key] = {f"c{i + 1}": x for i, x in enumerate(c[key])}
-    fn = resolve(c.get("function", c["name"]))
+    target = c.get("function", c["name"])
     env = spec_env()
+    receivers = [None]
+    if c.get("self_class") == "new":                      # a constructor contract: calling the class runs __init__
+        cls = resolve(target.rsplit(".", 1)[0])
+        fn = lambda **kw: (cls(**kw), None)[1]
+    elif c.get("self_class") == "LocalBioFilter":         # a method contract: receivers from a configuration grid of the contract's shape
+        cls = resolve(target.rsplit(".", 1)[0])
+        cfg = c.get("self_config", {})
+        receivers = []
+        for k_ in (1, 2, 3, 4):
+            for run in ([1, 2, 3] if cfg.get("run") else [None]):
+                if run is not None and run > k_:
+                    continue
+                for gc in ([[0.5, 0.5], [0.25, 0.75], [0.0, 0.5]] if cfg.get("gc") else [None]):
+                    mots = {None: [None], 0: [[]], 1: [["AC"], ["G"]], 2: [["CG", "TA"]], 3: [["A", "CG", "TTA"]]}[cfg.get("motifs")]
+                    for mot in mots:
+                        if mot is not None and any(len(x) > k_ for x in mot):
+                            continue
+                        receivers.append(cls(observed_length=k_, max_homopolymer_runs=run, gc_range=gc, undesired_motifs=mot))
+        meth = target.rsplit(".", 1)[1]
+        fn = None
+        env["filter_ok"] = lambda f, s_: S.filter_spec(f.observed_length, f.max_homopolymer_runs, f.gc_range, f.undesired_motifs, s_)
+    else:
+        fn = resolve(target)
     names = list(c.get("params", {}))
     pools = []
     for n in names:
@@ -166,17 +189,30 @@ def search(req):
             pools.append(candidates(c["params"][n]))
     tried = 0
     budget = req.get("budget", 30000)
+    def describe(rcv):
+        return None if rcv is None else {k_: getattr(rcv, k_) for k_ in ("observed_length", "max_homopolymer_runs", "gc_range", "undesired_motifs")}
+
+    def bound(rcv):
+        if rcv is None:
+            return fn
+        env["self"] = rcv
+        return getattr(rcv, meth)
     if "input" in req:
-        r = check_one(fn, c, req["input"], env)
-        return {"tried": 1, "failing": None if r is None else {"input": req["input"], **r}}
-    for combo in itertools.product(*pools):
-        tried += 1
-        if tried > budget:
-            break
-        args = dict(zip(names, combo))
-        r = check_one(fn, c, args, env)
-        if r is not None:
-            return {"tried": tried, "failing": {"input": args, **r}}
+        rcv = None
+        if req.get("receiver"):
+            rcv = cls(**req["receiver"])
+        r = check_one(bound(rcv), c, req["input"], env)
+        return {"tried": 1, "failing": None if r is None else {"input": req["input"], "receiver": req.get("receiver"), **r}}
+    for rcv in receivers:
+        f_ = bound(rcv)
+        for combo in itertools.product(*pools):
+            tried += 1
+            if tried > budget:
+                break
+            args = dict(zip(names, combo))
+            r = check_one(f_, c, args, env)
+            if r is not None:
+                return {"tried": tried, "failing": {"input": args, "receiver": describe(rcv), **r}}
     return {"tried": tried, "failing": None}
 
 
